@@ -35,9 +35,10 @@ Overlap(a0, a1, b0, b1) ==
       hi == IF a1 < b1 THEN a1 ELSE b1
   IN IF hi > lo THEN hi - lo ELSE 0
 \* hit h recovers the pair of intervals [x0,x1) on the target axis and [y0,y1) on the query axis
+\* ("overlaps most of the planted copy in both sequences": more than half of it on either axis)
 Recovers(h, x0, x1, y0, y1) ==
-  /\ 5 * Overlap(h.ab, h.ae, x0, x1) >= 4 * (x1 - x0)
-  /\ 5 * Overlap(h.bb, h.be, y0, y1) >= 4 * (y1 - y0)
+  /\ 2 * Overlap(h.ab, h.ae, x0, x1) > x1 - x0
+  /\ 2 * Overlap(h.bb, h.be, y0, y1) > y1 - y0
 
 \* the planted copy pl, as it looks to the pass that must find it
 Found(c, pl, hits) ==
